@@ -133,11 +133,15 @@ def c_dump(I, st, ca):
             if isnull:
                 out.append((s, NONE))
             else:
-                s1 = s.fork()
-                mem = s1.get(self_)
-                dom, val, size = overlay(I, s1, A, mem.dom, mem.val, mem.size)
-                s1.put(a_ref, A.clone(dom=dom, val=val, size=size))
-                out.append((s1, NONE))
+                for (s_ok, rejected) in models.archive_write_rejected(I, s, A, a_ref, s.get(self_)):
+                    if rejected is not None:
+                        out.append((s_ok, rejected))
+                        continue
+                    s1 = s_ok.fork()
+                    mem = s1.get(self_)
+                    dom, val, size = overlay(I, s1, A, mem.dom, mem.val, mem.size)
+                    s1.put(a_ref, A.clone(dom=dom, val=val, size=size))
+                    out.append((s1, NONE))
         return out
     states = [(st, NONE)]
     for k in keys:
@@ -160,11 +164,15 @@ def c_dump(I, st, ca):
                         if isnull:
                             nxt.append((s3, NONE))
                         else:
-                            s4 = s3.fork()
-                            s4.put(a_ref, A.clone(dom=z3.Store(A.dom, kt, True),
-                                                  val=z3.Store(A.val, kt, mem.val[kt]),
-                                                  size=A.size + z3.If(A.dom[kt], 0, 1)))
-                            nxt.append((s4, NONE))
+                            for (s_ok, rejected) in models.archive_write_rejected(I, s3, A, a_ref, None):
+                                if rejected is not None:
+                                    nxt.append((s_ok, rejected))
+                                    continue
+                                s4 = s_ok.fork()
+                                s4.put(a_ref, A.clone(dom=z3.Store(A.dom, kt, True),
+                                                      val=z3.Store(A.val, kt, mem.val[kt]),
+                                                      size=A.size + z3.If(A.dom[kt], 0, 1)))
+                                nxt.append((s4, NONE))
         states = nxt
     return states
 
